@@ -367,6 +367,13 @@ func visitInstr(fr *frame, instr ssa.Instruction) continuation {
 				panic(rtPanic{"runtime error: invalid memory address or nil pointer dereference"})
 			}
 			a := (*x).(array)
+			if s, ok := idx.(sv); ok && len(a) > 16 {
+				// symbolic index into a large array: keep the pointer symbolic
+				// (bounds checked now, load merges the elements)
+				e.boundsFork(s, len(a))
+				fr.setv(instr, &symptr{arr: a, idx: s})
+				break
+			}
 			i := e.index(idx, len(a))
 			fr.setv(instr, &a[i])
 		default:
@@ -570,6 +577,9 @@ func runFrame(fr *frame) {
 			return // normal return
 		}
 		p := recover()
+		if u, ok := p.(unsupported); ok && !strings.Contains(u.msg, " <- ") {
+			panic(unsupported{u.msg + fr.e.stackOf(fr)})
+		}
 		if isControl(p) {
 			panic(p)
 		}
